@@ -1,7 +1,7 @@
 """C19 — finite_difference is a faithful and non-destructive derivative check (pymoto/routines.py:23-285).
 
 correspondence: small networks of harness-defined `pymoto.Module` subclasses (`FDMod`: the C02 kinds lin/mul/dot/sq/fan/cat on
-    float64 / complex128 data with dyadic values, array / matrix / 0-d / Python-scalar inputs, sparse-matrix outputs, modules
+    float64 / complex128 data with dyadic values, array / matrix / 0-d / Python-scalar / sparse-matrix inputs, sparse-matrix outputs, modules
     with a deliberately WRONG `_sensitivity`) are handed to the real `pymoto.finite_difference` with dx = 2^-k, random
     fromsig / tosig, relative_dx, keep_zero_structure, use_df / ones / `np.random.rand` (replaced inside the harness process
     by a recording dyadic generator); the tuples passed to `test_fn` (in order) and ALL signal states / sensitivities after
@@ -36,16 +36,21 @@ RULE = ("networks of 1-5 FDMod modules (kinds lin/mul/dot/sq/fan/cat, optional n
 ASSUMPTIONS = [
     "module semantics are those of the harness-defined FDMod kinds (exact polynomial maps with coded adjoints; a wrong module runs the "
     "adjoint of another kind / matrix)",
-    "input states are C-contiguous float64/complex128 arrays, 0-d arrays or Python scalars (np.nditer visits non-contiguous views in "
-    "memory order; integer dtypes cannot be perturbed in place); FD inputs are plain Signals or basic-slice SignalSlices and are not "
-    "written by the selected sub-network",
-    "sparse-matrix INPUT signals are excluded (corpus/defects/c19_sparse_input.py.candidate), integer-array SignalSlice inputs with "
-    "complex data are excluded (c19_fancy_slice_complex.py.candidate); plain keep_alloc OUTPUT signals are compared with the model "
-    "(which reproduces the zeroed seed) but not judged by the oracle (c19_seed_alias.py.candidate)",
+    "dense input states are C-contiguous float64/complex128 arrays, 0-d arrays or Python scalars (np.nditer visits non-contiguous views "
+    "in memory order; integer dtypes cannot be perturbed in place); sparse-matrix inputs are csr / csc / coo without duplicate entries "
+    "(other formats: TypeError, compared as an error class); FD inputs are plain Signals, basic-slice or integer-array SignalSlices "
+    "(distinct indices)",
+    "an FD input that the selected sub-network itself overwrites is not an independent variable: such calls are kept out of the stream. "
+    "With the DEFAULT fromsig this happens by itself when Network.sig_in contains a SignalSlice of an internally produced signal (open "
+    "finding fd-default-input-is-slice-of-internal-signal); a fromsig used only inside a nested Network is invisible to the selection "
+    "(open finding fd-fromsig-inside-nested-network). A few cases of both classes are judged by the oracle, tagged with the finding key",
     "all data are dyadic and sized so that every float operation of the implementation is exact; cases whose exact results need more "
     "than 50 bits are skipped as boundary",
     "a whole spec is real or complex (no mixed dtypes inside one network)",
 ]
+
+KEY_SLICE = "fd-default-input-is-slice-of-internal-signal"
+KEY_NESTED = "fd-fromsig-inside-nested-network"
 
 BITS = 50
 
@@ -118,7 +123,7 @@ def fdmod_class():
                 self.wk = wrong.get("n")
 
         def _cat(self, arrs):
-            arrs = [np.asarray(a, dtype=self.dt).ravel() for a in arrs]
+            arrs = [np.asarray(a.toarray() if sp.issparse(a) else a, dtype=self.dt).ravel() for a in arrs]
             return np.concatenate(arrs) if arrs else np.zeros(0, dtype=self.dt)
 
         def _response(self, *inp):
@@ -140,12 +145,12 @@ def fdmod_class():
             x = self._cat(inp)
             w = self._cat([np.zeros(z, dtype=self.dt) if d is None else d for d, z in zip(dy, self.out_sizes)])
             ds = kind_adj(self.wkind, x, w, self.wA, self.wk)
-            sizes = [int(np.size(a)) for a in inp]
+            sizes = [int(np.prod(a.shape)) if sp.issparse(a) else int(np.size(a)) for a in inp]
             c = np.concatenate([[0], np.cumsum(sizes)]).astype(int)
             out = []
             for i, a in enumerate(inp):
                 v = ds[c[i]:c[i + 1]]
-                out.append(v.reshape(np.shape(a)) if isinstance(a, np.ndarray) else v[0])
+                out.append(v.reshape(a.shape) if (isinstance(a, np.ndarray) or sp.issparse(a)) else v[0])
             return out
 
     _FDMOD = FDMod
@@ -246,7 +251,7 @@ class Gen:
         for i, s in enumerate(self.sigs):
             if s["base"] == b and s["sl"] == sl:
                 return i
-        idx = None if sl is None else list(range(sl[0], sl[1]))
+        idx = None if sl is None else (list(sl[1]) if sl[0] == "arr" else list(range(sl[0], sl[1])))
         self.sigs.append({"base": b, "idx": idx, "sl": sl})
         return len(self.sigs) - 1
 
@@ -263,10 +268,15 @@ class Gen:
             shape = [rng.randint(1, 4)]
         elif r < 0.7:
             shape = [rng.randint(1, 2), rng.randint(1, 3)]
-        elif r < 0.8:
+        elif r < 0.78:
             shape = []
-        else:
+        elif r < 0.88:
             shape = "py"
+        else:
+            shape = [rng.randint(1, 3), rng.randint(1, 3)]
+        spfmt = None
+        if n is None and r >= 0.88:
+            spfmt = rng.choice(["csr", "csc", "coo"])
         ln = 1 if shape == "py" else int(np.prod(shape))
         st = [num(rng, self.cx, zero_p=0.25, pow2=self.rel) for _ in range(ln)]
         keep = rng.random() < 0.12 and shape != "py"
@@ -274,6 +284,19 @@ class Gen:
         if rng.random() < 0.12 and shape != "py":
             sens = [num(rng, self.cx) for _ in range(ln)]       # stale sensitivity
         b = self.new_base(shape, st, keep, sens)
+        if spfmt:
+            # a sparse-matrix source: a non-empty set of stored positions (explicit zeros allowed), zero elsewhere
+            pos = rng.sample(range(ln), rng.randint(1, ln))
+            nc = shape[1]
+            if spfmt == "csr":
+                pos.sort()
+            elif spfmt == "csc":
+                pos.sort(key=lambda p_: (p_ % nc, p_ // nc))
+            for e in range(ln):
+                if e not in pos:
+                    st[e] = [0.0, 0.0]
+            self.bases[b]["spfmt"] = spfmt
+            self.bases[b]["stored"] = pos
         self.readable.append(b)
         self.deg[b] = 1
         return b
@@ -281,7 +304,7 @@ class Gen:
     def pick_in(self, length=None, maxdeg=99):
         rng = self.rng
         cands = [b for b in self.readable if (length is None or self.bases[b]["len"] >= length) and self.deg[b] <= maxdeg
-                 and not self.bases[b]["sparse"]]
+                 and not self.bases[b]["sparse"] and not (length is not None and self.bases[b].get("spfmt"))]
         if not cands or rng.random() < 0.2:
             b = self.source(length)
         else:
@@ -293,12 +316,18 @@ class Gen:
         if length is not None and length != n:
             if not one_d:
                 return self.pick_in(length, maxdeg)
-            s0 = rng.randint(0, n - length)
-            sid = self.sig(b, [s0, s0 + length])
-        elif length is None and one_d and n >= 2 and rng.random() < 0.15:
-            s0 = rng.randint(0, n - 1)
-            s1 = rng.randint(s0 + 1, n)
-            sid = self.sig(b, [s0, s1])
+            if rng.random() < 0.3:
+                sid = self.sig(b, ["arr", rng.sample(range(n), length)])      # integer-array slice (a copy)
+            else:
+                s0 = rng.randint(0, n - length)
+                sid = self.sig(b, [s0, s0 + length])
+        elif length is None and one_d and n >= 2 and rng.random() < 0.22:
+            if rng.random() < 0.45:
+                sid = self.sig(b, ["arr", rng.sample(range(n), rng.randint(1, n))])
+            else:
+                s0 = rng.randint(0, n - 1)
+                s1 = rng.randint(s0 + 1, n)
+                sid = self.sig(b, [s0, s1])
         else:
             sid = self.sig(b, None)
         self.consumed.add(b)
@@ -507,7 +536,13 @@ def make_case(rng, quick, stream="main"):
 
 def make_malformed(rng):
     spec = make_case(rng, True, "net")
-    kind = rng.choice(["no_in", "no_out", "none_state", "none_out"])
+    kind = rng.choice(["no_in", "no_out", "none_state", "none_out", "sparse_lil", "sparse_lil"])
+    if kind == "sparse_lil":
+        sp_b = [b for b in spec["bases"] if b.get("spfmt")]
+        if sp_b:
+            rng.choice(sp_b)["spfmt"] = "lil"       # not iterable by np.nditer: TypeError when it is an input of interest
+        else:
+            kind = "no_in"
     spec["isnet"] = True
     if "net" not in spec["prog"][0] and len(spec["prog"]) == 1 and rng.random() < 0.3:
         spec["isnet"] = False
@@ -565,6 +600,14 @@ def _build(spec):
     bases = []
     for i, b in enumerate(spec["bases"]):
         st = None if b["state"] is None else _arr(b["state"], b["shape"], cx)
+        if st is not None and b.get("spfmt"):
+            import scipy.sparse as sp
+            nc = b["shape"][1]
+            pos = b["stored"]
+            flat = st.ravel()
+            m = sp.coo_matrix((np.array([flat[p_] for p_ in pos], dtype=st.dtype), ([p_ // nc for p_ in pos], [p_ % nc for p_ in pos])),
+                              shape=tuple(b["shape"]))
+            st = {"csr": m.tocsr, "csc": m.tocsc, "coo": m.copy, "lil": m.tolil}[b["spfmt"]]()
         if b["keep"]:
             s = pm.Signal(f"b{i}", state=st, sensitivity=np.zeros(1))
             s.sensitivity = None
@@ -577,7 +620,7 @@ def _build(spec):
     for s in spec["sigs"]:
         o = bases[s["base"]]
         if s["sl"] is not None:
-            o = o[s["sl"][0]:s["sl"][1]]
+            o = o[np.array(s["sl"][1], dtype=np.int64)] if s["sl"][0] == "arr" else o[s["sl"][0]:s["sl"][1]]
         sigs.append(o)
 
     def mk(items):
@@ -612,7 +655,9 @@ def raw_states(bases):
         elif isinstance(s, np.ndarray):
             out.append(("nd", s.dtype.str, s.shape, s.tobytes()))
         elif hasattr(s, "toarray"):
-            out.append(("sp", s.dtype.str, s.shape, s.toarray().tobytes()))
+            c_ = s.tocoo()
+            out.append(("sp", s.format, s.dtype.str, s.shape, np.asarray(s.data).tobytes() if isinstance(s.data, np.ndarray) else None,
+                        c_.row.tolist(), c_.col.tolist(), s.toarray().tobytes()))
         else:
             out.append((type(s).__name__, repr(s)))
     return out
@@ -692,8 +737,23 @@ def run_impl(spec):
         out.update(snapshot(bases))
         out["raw_after"] = raw_states(bases)
         out["cxflags"] = [None if b.state is None else bool(np.iscomplexobj(b.state)) for b in bases]
+        out["sp_order_ok"] = True
+        for b, bd in zip(bases, spec["bases"]):
+            if bd.get("spfmt") in ("csr", "csc", "coo") and b.state is not None:
+                c_ = b.state.tocoo()
+                if [int(r_) * bd["shape"][1] + int(c2) for r_, c2 in zip(c_.row, c_.col)] != list(bd["stored"]):
+                    out["sp_order_ok"] = False
         out["out_has_state"] = [sigs[s].state is not None for s in outps]
         return out
+
+
+def _inp_req(spec, s):
+    bd = spec["bases"][spec["sigs"][s]["base"]]
+    d = {"sig": s, "py": bd["shape"] == "py"}
+    if bd.get("spfmt") and bd["state"] is not None:
+        d["visit"] = list(bd["stored"])
+        d["bad"] = bd["spfmt"] not in ("csr", "csc", "coo")
+    return d
 
 
 def model_req(spec, impl):
@@ -744,7 +804,7 @@ def model_req(spec, impl):
             seeds.append([[q(v) for v in r1], [q(v) for v in r2]])
     return {"m": "c19.fd", "bases": bases, "sigs": [{"base": s["base"], "idx": s["idx"]} for s in spec["sigs"]],
             "prog": conv(spec["prog"]), "isnet": spec["isnet"],
-            "inps": [{"sig": s, "py": spec["bases"][spec["sigs"][s]["base"]]["shape"] == "py"} for s in impl["inps"]],
+            "inps": [_inp_req(spec, s) for s in impl["inps"]],
             "outps": outps, "seedmode": mode, "seeds": seeds,
             "dx": q(2.0 ** -spec["dx_exp"]), "rel": spec["rel"], "keepzero": spec["keepzero"]}
 
@@ -877,13 +937,28 @@ def backprop_real(spec, impl, seeds):
     return res
 
 
-def seed_aliased(spec, outps):
-    """a plain output of interest whose base signal is also used through a SignalSlice somewhere in the network:
-    `Sout.sensitivity = df_an[Iout]` hands the seed array itself to the signal and `SignalSlice.reset` zeroes part of it in
-    place (defect candidate corpus/defects/c19_seed_alias.py.candidate) - excluded from the streams"""
+def default_input_internal_slice(spec, inps):
+    """open finding KEY_SLICE: default fromsig, and Network.sig_in contains a SignalSlice of a signal that a module writes"""
+    if spec["fromsig"] is not None or not spec["isnet"]:
+        return False
     sg = spec["sigs"]
-    sliced = {sg[s]["base"] for m in flat_mods(spec["prog"]) for s in m["ins"] + m["outs"] if sg[s]["idx"] is not None}
-    return any(sg[s]["idx"] is None and sg[s]["base"] in sliced for s in outps)
+    written = {sg[s]["base"] for m in flat_mods(spec["prog"]) for s in m["outs"]}
+    return any(sg[s]["idx"] is not None and sg[s]["base"] in written for s in inps)
+
+
+def nested_internal_input(spec, inps):
+    """open finding KEY_NESTED: an FD input that is read inside a nested Network but is not among that item's sig_in"""
+    if not spec["isnet"]:
+        return False
+    sg = spec["sigs"]
+    ib = {sg[s]["base"] for s in inps}
+    for it in spec["prog"]:
+        if "net" in it:
+            vis = set(item_io(spec, it)[0])
+            for m in flat_mods(it["net"]):
+                if any(sg[s2]["base"] in ib and sg[s2]["base"] not in vis for s2 in m["ins"]):
+                    return True
+    return False
 
 
 def sub_entries(spec, impl):
@@ -896,11 +971,10 @@ def sub_entries(spec, impl):
         mods = mods[fi:la + 1]
     sg, bs = spec["sigs"], spec["bases"]
     out = set()
-    for m in flat_mods(mods):
-        for s in m["ins"] + m["outs"]:
-            b = sg[s]["base"]
-            for e in (range(bs[b]["len"]) if sg[s]["idx"] is None else sg[s]["idx"]):
-                out.add((b, e))
+    for s in [s for m in flat_mods(mods) for s in m["ins"] + m["outs"]] + list(impl["inps"]) + list(impl["outps"]):
+        b = sg[s]["base"]
+        for e in (range(bs[b]["len"]) if sg[s]["idx"] is None else sg[s]["idx"]):
+            out.add((b, e))
     return out
 
 
@@ -932,28 +1006,31 @@ def sub_bases(spec, impl):
             return None
         mods = mods[fi:la + 1]
     sg = spec["sigs"]
-    return {sg[s]["base"] for m in flat_mods(mods) for s in m["ins"] + m["outs"]}
+    return {sg[s]["base"] for m in flat_mods(mods) for s in m["ins"] + m["outs"]} | \
+        {sg[s]["base"] for s in list(impl["inps"]) + list(impl["outps"])}
 
 
-def oracle(spec, impl=None):
-    """None or (what, detail): the property checked on the real code for one spec"""
+def oracle(spec, impl=None, finding=False):
+    """None, a "skip:..." string or (what, detail): the property checked on the real code for one spec.  `finding=True` judges a
+    case of one of the two open-finding input classes (normally kept out)."""
     if impl is None:
         impl = run_impl(spec)
     if impl["err"] is not None:
+        if finding:
+            return ("finite_difference raises " + str(impl.get("msg"))[:200], {"err": impl["err"]})
         return None
     sg, bs = spec["sigs"], spec["bases"]
     cx = spec["cx"]
     inps, outps = impl["inps"], impl["outps"]
     dxv = Fraction(2) ** -spec["dx_exp"]
-    if overwritten_input(spec, inps, outps):
-        return "skip:overwritten_input"
-    if seed_aliased(spec, outps):
-        return "skip:seed_aliased"
+    if not finding:
+        if nested_internal_input(spec, inps):
+            return "skip:" + KEY_NESTED
+        if default_input_internal_slice(spec, inps):
+            return "skip:" + KEY_SLICE
+        if overwritten_input(spec, inps, outps):
+            return "skip:overwritten_input"
     cover = sub_entries(spec, impl)
-    for s in outps:
-        b = sg[s]["base"]
-        if any((b, e) not in cover for e in (range(bs[b]["len"]) if sg[s]["idx"] is None else sg[s]["idx"])):
-            return "skip:output_outside_slice"      # its seed is never reset (defect candidate c19_unreset_outside_slice)
     # -- non-destructive: states of every signal that is not written by the network are bitwise what they were
     written = {sg[s]["base"] for m in flat_mods(spec["prog"]) for s in m["outs"]}
     for b in range(len(bs)):
@@ -976,27 +1053,6 @@ def oracle(spec, impl=None):
         if not bs[b]["keep"] and all((b, e) in cover for e in range(bs[b]["len"])) and \
                 not any(s2["base"] == b and s2["idx"] is not None for s2 in sg):
             return ("a zero sensitivity array is left on a signal that does not keep its allocation", {"base": b})
-    # an FD input that lies outside the selected sub-network and carries a stale sensitivity is reported with that stale
-    # value (defect candidate c19_unreset_outside_slice): not judged
-    for s in inps:
-        b = sg[s]["base"]
-        if bs[b]["sens"] is not None and \
-                any((b, e) not in cover for e in (range(bs[b]["len"]) if sg[s]["idx"] is None else sg[s]["idx"])):
-            return "skip:stale_input_outside_slice"
-    for s in outps:
-        b = sg[s]["base"]
-        if any((b, e) not in cover for e in (range(bs[b]["len"]) if sg[s]["idx"] is None else sg[s]["idx"])):
-            return "skip:output_outside_slice"      # its seed is never reset (defect candidate c19_unreset_outside_slice)
-    # an FD input that is an internal signal of a nested Network is invisible to the sub-network selection
-    # (defect candidate c19_nested_internal_input)
-    if spec["isnet"]:
-        ib = {sg[s]["base"] for s in inps}
-        for it in spec["prog"]:
-            if "net" in it:
-                vis = set(item_io(spec, it)[0])
-                for m in flat_mods(it["net"]):
-                    if any(sg[s2]["base"] in ib and sg[s2]["base"] not in vis for s2 in m["ins"]):
-                        return "skip:input_internal_to_nested_network"
     # -- unperturbed values of everything
     upto = None
     if spec["isnet"]:
@@ -1006,17 +1062,16 @@ def oracle(spec, impl=None):
                    upto)
     frozen = {(sg[s]["base"], e) for s in inps
               for e in (range(bs[sg[s]["base"]]["len"]) if sg[s]["idx"] is None else sg[s]["idx"])}
-    if overwritten_input(spec, inps, outps):
-        return "skip:overwritten_input"
     # -- expected visiting order
     seeds = seeds_of(spec, impl)
-    keepout = [sg[s]["idx"] is None and bs[sg[s]["base"]]["keep"] for s in outps]
     expected = []
     for iin, s in enumerate(inps):
         b = sg[s]["base"]
         ents = list(range(bs[b]["len"])) if sg[s]["idx"] is None else sg[s]["idx"]
         py = bs[b]["shape"] == "py"
-        for j, e in enumerate(ents):
+        order = list(bs[b]["stored"]) if bs[b].get("spfmt") else list(range(len(ents)))     # stored values of a sparse matrix
+        for j in order:
+            e = ents[j]
             x0 = st0[b][e]
             if x0 == CF() and spec["keepzero"] and not py:
                 continue
@@ -1045,8 +1100,6 @@ def oracle(spec, impl=None):
         if anc.re != part(bp):
             return ("reported analytical value differs from the back-propagated sensitivity for the seed used",
                     {"input": s, "entry": j, "imag": imag, "output": so, "reported": enc(anc), "backprop": enc(bp)})
-        if keepout[k]:
-            continue      # seed zeroed in place (defect candidate c19_seed_alias): not judged
         # G(t) = sum_o w_o * state_o(x + t * dir * e_entry)
         key = (b, e, imag, k)
         if key not in cache:
@@ -1132,13 +1185,23 @@ def _dyadic(v):
 
 
 def compare_case(ctx, stream, spec, impl, m, judge=True):
+    # the two open-finding input classes are kept out of the stream; a few of them are judged by the oracle, tagged with the key
+    fkey = KEY_NESTED if nested_internal_input(spec, impl["inps"]) else \
+        KEY_SLICE if default_input_internal_slice(spec, impl["inps"]) else None
+    if fkey:
+        ctx.branch("excluded." + fkey)
+        if stream != "malformed" and ctx.branches.get("finding_oracle." + fkey, 0) < (6 if ctx.quick else 40):
+            ctx.branch("finding_oracle." + fkey)
+            r = call_impl(oracle, spec, impl, True)
+            if r[0] == "ok" and r[1] and not isinstance(r[1], str):
+                ctx.branch("finding_oracle_fails." + fkey)
+                ctx.oracle_fail(r[1][0], {"spec": spec, "detail": r[1][1]}, key=fkey)
+        return False
     if impl["err"] is None and overwritten_input(spec, impl["inps"], impl["outps"]):
         ctx.branch("excluded.overwritten_input")
         return False
-    if seed_aliased(spec, impl["outps"]) and impl["err"] is None:
-        ctx.branch("excluded.seed_aliased")
-        if "ok" in m:
-            ctx.disagree(stream, _strip(spec), None, None, "driver did not refuse a seed-aliased case")
+    if not impl.get("sp_order_ok", True):
+        ctx.disagree(stream, _strip(spec), None, None, "scipy stored the values of a sparse input in an unexpected order (harness)")
         return False
     if "ok" not in m:
         if m.get("err") in ("IllSized", "IrrationalAbs"):
@@ -1185,7 +1248,10 @@ def compare_case(ctx, stream, spec, impl, m, judge=True):
             ctx.branch("sparse_output")
     for s in impl["inps"]:
         sh = spec["bases"][spec["sigs"][s]["base"]]["shape"]
-        ctx.branch("input." + ("pyscalar" if sh == "py" else "slice" if spec["sigs"][s]["idx"] is not None else "%dd" % len(sh)))
+        sl = spec["sigs"][s]["sl"]
+        ctx.branch("input." + ("pyscalar" if sh == "py" else ("sparse-" + spec["bases"][spec["sigs"][s]["base"]]["spfmt"])
+                               if spec["bases"][spec["sigs"][s]["base"]].get("spfmt") else
+                               ("intarray-slice" if sl[0] == "arr" else "basic-slice") if sl is not None else "%dd" % len(sh)))
     if spec["isnet"]:
         fi, la = selection(spec, impl["inps"], impl["outps"])
         ctx.branch("slice." + ("whole" if (fi == 0 and la == len(spec["prog"]) - 1) else "proper"))
@@ -1245,6 +1311,32 @@ def correspondence(ctx):
 
 
 # ------------------------------------------------------------------------------------------------------------------
+# open known findings: the witness scripts are replayed on the implementation
+# ------------------------------------------------------------------------------------------------------------------
+def _probe(script):
+    def run(ctx):
+        import os
+        import subprocess
+        import sys
+        from ..common import VERIF
+        f = os.path.join(VERIF, "corpus", "defects", "pending", script)
+        if not os.path.exists(f):
+            return None
+        p_ = subprocess.run([sys.executable, f], capture_output=True, text=True, timeout=300)
+        if p_.returncode == 0:
+            return None
+        lines = [ln for ln in (p_.stdout + p_.stderr).strip().split("\n") if ln.strip()]
+        return "witness %s still fails: %s" % (script, " | ".join(lines[-2:])[:300])
+    return run
+
+
+FINDING_PROBES = {
+    KEY_SLICE: _probe("c19_default_input_internal_slice.py"),
+    KEY_NESTED: _probe("c19_nested_internal_input.py"),
+}
+
+
+# ------------------------------------------------------------------------------------------------------------------
 # search / replay
 # ------------------------------------------------------------------------------------------------------------------
 def search(ctx, disagreements):
@@ -1252,7 +1344,7 @@ def search(ctx, disagreements):
     seen = set()
     for d in disagreements:
         spec = d.get("case")
-        if not isinstance(spec, dict) or "prog" not in spec or d.get("stream") in ("malformed", "keepout"):
+        if not isinstance(spec, dict) or "prog" not in spec or d.get("stream") in ("malformed",):
             continue
         key = json.dumps(spec, sort_keys=True, default=str)
         if key in seen:
